@@ -116,6 +116,7 @@ class Program:
             self._collect(m, None, t.body, m, None, p)
         self.n_callsites = 0
         self.call_stats = None
+        self.renamed_anchors = self._restore_renamed_nested() if canonical else {}
         if canonical:
             from .inline import normalise_calls
             self.call_stats = normalise_calls(self)
@@ -127,6 +128,48 @@ class Program:
                     ref = _json.load(open(bp)).get('locals')
                     if ref:
                         self.call_stats['functions_renamed'] = restore_names(self, ref)
+
+    def _restore_renamed_nested(self):
+        """a nested function of the reference tree that is gone while exactly one new nested function appeared in the same parent is that
+        function under a new name: it gets its reference name back (definition, uses in the parent, registry keys) so that the rules
+        that name it still find it. -> {new qual: reference qual}"""
+        import json as _json
+        bp = os.path.join(os.path.dirname(os.path.abspath(__file__)), 'baseline_funcs.json')
+        if not os.path.exists(bp):
+            return {}
+        base = set(_json.load(open(bp)).get('functions', []))
+        out = {}
+        for pq in sorted(self.funcs, key=lambda k: k.count('.<')):
+            if pq not in self.funcs:
+                continue
+            F = self.funcs[pq]
+            if isinstance(F.node, ast.Lambda):
+                continue
+            pre = pq + '.<'
+            cur = {q for q, f in self.funcs.items() if f.parent == pq and q.startswith(pre) and '#' not in q}
+            ref = {q for q in base if q.startswith(pre) and '.<' not in q[len(pre):] and '#' not in q}
+            gone, new = sorted(ref - cur), sorted(cur - ref)
+            if len(gone) != 1 or len(new) != 1:
+                continue
+            old_name, new_name = gone[0][len(pre):-1], new[0][len(pre):-1]
+            bound = {x.id for x in ast.walk(F.node) if isinstance(x, ast.Name)} | {a.arg for a in ast.walk(F.node) if isinstance(a, ast.arg)}
+            if old_name in bound or isinstance(self.funcs[new[0]].node, ast.Lambda):
+                continue
+            self.funcs[new[0]].node.name = old_name
+            for x in ast.walk(F.node):
+                if isinstance(x, ast.Name) and x.id == new_name:
+                    x.id = old_name
+                elif isinstance(x, (ast.Nonlocal, ast.Global)):
+                    x.names = [old_name if k == new_name else k for k in x.names]
+            # registry keys of the function and of everything nested in it
+            for q in [k for k in self.funcs if k == new[0] or k.startswith(new[0] + '.')]:
+                f = self.funcs.pop(q)
+                f.qual = gone[0] + q[len(new[0]):]
+                if f.parent and (f.parent == new[0] or f.parent.startswith(new[0] + '.')):
+                    f.parent = gone[0] + f.parent[len(new[0]):]
+                self.funcs[f.qual] = f
+            out[new[0]] = gone[0]
+        return out
 
     # ------------------------------------------------------------------ registry
     def _collect(self, m, cls, body, prefix, parent, path):
